@@ -109,7 +109,25 @@ func dcRun(in []byte) (interface{}, error) {
 		db := 0
 		used := map[string]bool{}
 		kinds := []string{"string", "list", "hash", "set", "zset"}
+		chunkAt := -1
+		if c.Chunked {
+			chunkAt = c.Entries / 3 // a split hash in the middle of the file: the keys after it matter
+		}
+		putChunked := func() {
+			v := rdbref.Value{Kind: "hash"}
+			for i := 0; i < 3; i++ {
+				v.Hash = append(v.Hash, rdbref.HF{Field: []byte(fmt.Sprintf("f%d", i)), Value: bytes.Repeat([]byte{byte('a' + i)}, 9*1024*1024)})
+			}
+			typ, body, _ := rdbref.EncodeValue(v, rdbref.Enc{Type: rdbref.THash})
+			w.Key([]byte("bighash"), typ, body)
+			used[fmt.Sprintf("%d/%x", db, "bighash")] = true
+			ents = append(ents, &dcEntry{db: db, key: []byte("bighash"), kind: "hash", want: v, lines: 3})
+		}
 		for i := 0; i < c.Entries; i++ {
+			if i == chunkAt {
+				putChunked()
+				chunkAt = -1
+			}
 			if rnd.Intn(4) == 0 {
 				db = []int{0, 1, 2, 15}[rnd.Intn(4)]
 				w.SelectDB(uint64(db), rdbref.LenCanonical)
@@ -230,14 +248,8 @@ func dcRun(in []byte) (interface{}, error) {
 			}
 			ents = append(ents, e)
 		}
-		if c.Chunked {
-			v := rdbref.Value{Kind: "hash"}
-			for i := 0; i < 3; i++ {
-				v.Hash = append(v.Hash, rdbref.HF{Field: []byte(fmt.Sprintf("f%d", i)), Value: bytes.Repeat([]byte{byte('a' + i)}, 9*1024*1024)})
-			}
-			typ, body, _ := rdbref.EncodeValue(v, rdbref.Enc{Type: rdbref.THash})
-			w.Key([]byte("bighash"), typ, body)
-			ents = append(ents, &dcEntry{db: db, key: []byte("bighash"), kind: "hash", want: v, lines: 3})
+		if chunkAt >= 0 {
+			putChunked()
 		}
 		file := w.Finish(true)
 		inPath := filepath.Join(cfg.Dir, fmt.Sprintf("in-%d.rdb", c.Id))
